@@ -108,7 +108,9 @@ def main():
         for tok in cases[idx].split(" T ")[0].split(" "):
             if tok.isdigit() and int(tok) > (1 << 40):
                 v = f(tok)
-                if not math.isfinite(v) or abs(v) > 1e100:
+                # (numbers below 1e-100 in magnitude are as extreme as those above 1e100: their
+                # reciprocals and squares over- / underflow, and Lean's Float has no overflow-safe hypot)
+                if not math.isfinite(v) or abs(v) > 1e100 or (v != 0.0 and abs(v) < 1e-100):
                     extreme = True; break
         ok = True
         if res_i.startswith("PANIC"):
